@@ -559,6 +559,7 @@ Section Dispatch.
     | None =>
     match name, args with
     | "hash", [TB b] => [TB (H b)]
+    | "c11.state_len", [TZ h; TZ nl] => [tN (state_len (Z.to_N h) (Z.to_N nl))]
     | "c12.derive", [TB nm; TB i; TZ k] => [TB (derive H nm (id_index_args i (Z.to_N k)))]
     | "c12.derive1", [TB nm; TB i] => [TB (derive H nm i)]
     | "c12.raw", [TB i; TZ k] => [TB (H (id_index_args i (Z.to_N k)))]
